@@ -155,8 +155,16 @@ type ctxKeyStringer int
 
 func (k ctxKeyStringer) String() string { return attrName(50 + int(k)) }
 
-// context keys: odd ids are plain strings, even ids Stringers; both name attribute 50+id
+type ctxKeyAlias int
+
+func (k ctxKeyAlias) String() string { return attrName(50 + int(k) - 10) }
+
+// context keys: odd ids are plain strings, even ids Stringers; both name attribute 50+id; ids from 10 on
+// are distinct keys (another type) printing the name of key id-10
 func mkCtxKey(a int) any {
+	if a >= 10 {
+		return ctxKeyAlias(a)
+	}
 	if a%2 == 0 {
 		return ctxKeyStringer(a)
 	}
